@@ -23,8 +23,8 @@ BUDGET = {"quick": 12000, "thorough": 400000}
 
 STATIC = {
     "text": ["foo", "bar123", "https://my-site.com/x?y=1", "foo bar", "a.b", "N/A", "q_1"], "integer": ["5", "-3", "0"],
-    "decimal": ["1.5", "-0.25", "-.5", ".75", "-.25"], "date": ["2022-03-14", "1999-12-31"], "time": ["01:02:55", "01:02:55.000-07:00"],
-    "dateTime": ["2022-03-14T01:02:55Z", "2022-03-14T01:02:55+10:00", "2022-03-14T01:02:55.000-08:00"],
+    "decimal": ["1.5", "-0.25", "-.5", ".75", "-.25"], "date": ["2022-03-14", "1999-12-31"],
+    "time": ["01:02:55", "01:02:55.000-07:00", "01:02:55.000+10:00", "23:59:59.5Z"], "dateTime": ["2022-03-14T01:02:55Z", "2022-03-14T01:02:55.000+10:00", "2022-03-14T01:02:55.25-03:30"],
     "geopoint": ["32.7 -117.1 14 5.01", "-1.5 36.8 0 0"], "geotrace": ["1 -2 0 0;3 -4 0 0"], "note": ["n"], "select_one": ["c1"],
     "select_multiple": ["c1 c2", "c1"], "image": ["a.png"], "barcode": ["b77"], "range": ["3"], "hidden": ["hv"], "acknowledge": ["OK"],
     "calculate": ["plain"],
@@ -33,7 +33,7 @@ DYNAMIC = ["now()", "today()", "uuid()", "1 + 1", "7 * 4", "3 mod 3", "9 div 3",
            "string-length('x')", "once(random())", "/data/x | /data/y", "instance('l1')/root/item[name='c1']/label",
            "today() - 7", "now() - 0.5", "decimal-date-time(today()) - 1", "if(true(), today() - 1, today())",
            # a hyphen in front of what makes the cell an expression
-           "1 - today()", "0 - 1 + now()", "(0 - 7) + today()", "-1 * 3", "2020-01-01 + 1", "../t0[1]", "/data/x[1]/y"]
+           "1 - today()", "0 - 1 + now()", "today ()", "concat ('a', 'b')", "once (random())", "(0 - 7) + today()", "-1 * 3", "2020-01-01 + 1", "../t0[1]", "/data/x[1]/y"]
 DYN_REF = ["${%s}", "${%s} + 1", "concat(${%s}, 'z')", "if(${%s} = '', 'a', ${%s})", "${%s} - 7", "${%s} - ${%s}", "(0 - 7) + ${%s}", "7 - ${%s}",
            "../${%s}" if False else "0 - ${%s}"]
 BOUNDARY = ["a-b", "1-1", "f-4", "./f-4", "(x)", "../t0", "7 - 4", "{y}", "a - b"]
@@ -219,7 +219,10 @@ def check(out, form, v):
                 calc = c.get("calculation")
                 val = nested[0].get("value")
                 if calc:
-                    if val is None or refs.match_substituted(common.survey_clean(calc), val) is None:
+                    # documented: yes/no spellings of a calculation are normalised to true()/false(), with or without a trigger
+                    cc = common.survey_clean(calc)
+                    cc = "true()" if cc in expect.BIND_TRUE else "false()" if cc in expect.BIND_FALSE else cc
+                    if val is None or refs.match_substituted(cc, val) is None:
                         out.fail("C10.trigger", "value", f"{n.path}: action value {val!r} is not calculation {calc!r} substituted")
                 elif val is not None and base != "background-geopoint":
                     out.fail("C10.trigger", "value-invented", f"{n.path}: action value {val!r} but no calculation")
